@@ -27,6 +27,11 @@ theorem pin_req_ack : Gen.reqAck = b "<r xmlns='urn:xmpp:sm:3'/>" := by decide
 
 /-! ### numbering -/
 
+/-- the outbound counter is a 32-bit field and a written stanza takes the current number before a
+    plain (wrapping) increment: `SmState.sentNr : UInt32`, `+ 1` in the model; translated and pinned
+    because 2^32 stanzas are out of reach of any run -/
+theorem pin_sent_counter : Gen.smCounterBits = [32, 32] ∧ Gen.smSentPlainIncr = true := by decide
+
 theorem retire_counts (c : Conn) (e : QElem) :
     let c' := retire c e
     (∃ r, c'.tx = c.tx ++ [r] ∧ r.item = e.item ∧ r.owner = e.owner ∧
